@@ -4,6 +4,7 @@ CONSTANTS Threads = {1, 2, 3}
           CountWhat = "alive"
           Servers = {1, 2}
           MaxRestarts = 1
+          Bad = {}
           MaxLen = 40
 VIEW View
 INVARIANT C14_Bound
